@@ -1,6 +1,9 @@
 package verifsim
 
 import (
+	"sort"
+	"net/url"
+	"bytes"
 	"github.com/mimiro-io/datahub/internal/server"
 	"encoding/json"
 	"fmt"
@@ -266,6 +269,14 @@ func RunC15Scenario(sc *Scenario) (vd *Verdict) {
 				return
 			}
 			r.ev("payload %d", len(op.Ents))
+		case "readback":
+			// a client reads the dataset back over HTTP, page by page (GET entities with from=, GET changes with since=, full and
+			// latest-only), and parses every page with the hub's own stream parser: the pages put together are the
+			// latest view (each entity once) resp. the change feed, entity for entity
+			if v := r.readback(op); v != nil {
+				fail(v, i)
+				return
+			}
 		case "pull", "push":
 			hub, id, target := r.B, "pull", "copy"
 			done := &pulled
@@ -487,4 +498,88 @@ func RunC15Scenario(sc *Scenario) (vd *Verdict) {
 		}
 	}
 	return
+}
+
+
+// readback pages through one of hub A's read routes and compares what parses back with the model.
+func (r *C15Run) readback(op *Op) *Violation {
+	limit := op.Limit
+	kind := op.S // entities | changes | latest
+	var got []string
+	token := ""
+	for page := 0; page < 200; page++ {
+		path := "/datasets/src/entities"
+		q := []string{}
+		if kind != "entities" {
+			path = "/datasets/src/changes"
+			if kind == "latest" {
+				q = append(q, "latestOnly=true")
+			}
+			if token != "" {
+				q = append(q, "since="+url.QueryEscape(token))
+			}
+		} else if token != "" {
+			q = append(q, "from="+url.QueryEscape(token))
+		}
+		if limit > 0 {
+			q = append(q, fmt.Sprintf("limit=%d", limit))
+		}
+		if len(q) > 0 {
+			path += "?" + strings.Join(q, "&")
+		}
+		code, body := r.A.Do("GET", path, nil, nil)
+		r.Stats["readback_pages"]++
+		if code != 200 {
+			return viol("C15", "readback", fmt.Sprintf("read-rejected:%s:%d", kind, code), "GET %s was answered %d %s", path, code, clip(string(body)))
+		}
+		n, next := 0, ""
+		err := server.NewEntityStreamParser(r.B.Store).ParseStream(bytes.NewReader(body), func(e *server.Entity) error {
+			if e.ID == "@continuation" {
+				next, _ = e.Properties["token"].(string)
+				return nil
+			}
+			n++
+			got = append(got, r.B.Canon(e).String())
+			return nil
+		})
+		if err != nil {
+			return viol("C15", "readback", "page-does-not-parse:"+kind, "the answer to GET %s does not parse back: %v; body %s", path, err, clip(string(body)))
+		}
+		if n == 0 || next == "" || (limit == 0 && kind == "entities") {
+			break
+		}
+		if limit == 0 {
+			// an unlimited page of changes is complete; its token, read again, yields nothing (checked by the next round)
+			token = next
+			continue
+		}
+		token = next
+	}
+	d := r.MA.DS["src"]
+	var want []string
+	switch kind {
+	case "entities":
+		for _, id := range sortedKeys(d.Latest) {
+			want = append(want, d.LatestOf(id).String())
+		}
+		g2 := append([]string(nil), got...)
+		sort.Strings(g2)
+		sort.Strings(want)
+		got = g2
+	case "changes":
+		for _, v := range d.Versions {
+			want = append(want, v.Str)
+		}
+	default:
+		for i, v := range d.Versions {
+			if d.Latest[v.C.ID] == i {
+				want = append(want, v.Str)
+			}
+		}
+	}
+	if i := firstDiff(want, got); i >= 0 {
+		return viol("C15", "readback", "pages-differ-from-stored:"+kind, "GET %s of hub A read page by page (limit %d) and parsed back differs from what was posted at position %d: got %s, want %s (%d entities read, %d expected)", kind, limit, i, at(got, i), at(want, i), len(got), len(want))
+	}
+	r.Stats["readbacks_checked"]++
+	return nil
 }
